@@ -115,3 +115,11 @@ META["C02"] = {
     "text": "Exploration: 30 (160) waves per protocol of 2..64 concurrent requests over ONE downstream connection (bolt multiplexed client, HTTP/2 reference Transport; HTTP/1.1: 4 pooled connections) through a real MOSN sharing its upstream connections; per-request upstream plans: random delay 0..300 ms (scrambled reply order), reply after the 400 ms timeout on a connection that keeps being used, unknown id, duplicated reply, 5xx, close between replies, retry policy with per-try timeout; every response's header token and body token must equal the sent token, at most one response per call. c02-wrap: 600 (6000) cases on the real xprotocol client stream connection with the id counter pre-set to {0, wrap-k, wrap-3} (2^32 bolt/boltv2, 2^31 tars, 2^64 dubbo) while 1..40 requests are pending; permuted / duplicated / unknown-id reply sequences are dispatched; each stream must receive exactly its own frame once, ids of pending streams must be unique.",
     "note": "Unique tokens make the history unambiguous (O(n log n) join, no search). MOSN-generated error replies carry no token and are not judged for correlation (C03 judges their count).",
 }
+
+META["C17"] = {
+    "engine": "vworker",
+    "design_ref": "DESIGN.md §3 C17, §2.4",
+    "technique": "reference action model (rewrites, three-level header mutation order, redirect / direct response, timeout precedence, retry conditions and budget) compared with what a recording upstream saw per attempt and what the client received, over a running proxy; timeout source classified by probe pairs at T/2 and 2T with factor-4 separated candidates; attempts counted per request token",
+    "text": "Exploration: a real in-process MOSN with 25 generated route variants per protocol (HTTP/1, HTTP/2, bolt) per batch/seed: prefix / regex path rewrite, host rewrite, request and response header add-append / overwrite / remove at route, virtual-host and router level on overlapping names, redirects (code / path / host / scheme), direct responses with and without body, timeout sources (route vs x-mosn-global-timeout vs the bolt frame's timeout field), retry policies (retry_on, num_retries 1..5, status code lists, per-try timeout, no policy). Each action route is exercised 3 (12) times with random pre-set header values and queries; the upstream's recorded URI / Host / headers and the client's status / Location / body / response headers are compared with the model; redirects and direct responses must never reach an upstream; per retry policy random per-attempt outcome sequences (2xx, 5xx, listed / unlisted code, close, per-try timeout, half response on HTTP/2) are run with a sequential client: attempts <= 1 + budget, retry only under listed conditions, successive attempts on different hosts (round robin over two healthy hosts).",
+    "note": "A timeout-source mismatch must reproduce 3/3 before it counts; delays are a factor 2 away from the candidate and candidates a factor 4 apart (400 / 1600 ms). The 60 s default timeout is not exercised. MOSN-generated replies echo the request headers, so 'delivered' is judged by the upstream's body token. bolt status codes are not mapped onto HTTP retry conditions (only the budget is judged for bolt).",
+}
